@@ -701,14 +701,23 @@ impl Vm {
         let mut count = 0;
         let mut rest = expr;
         while rest.is_pair() {
+            // An unquote in tail position, (a . ,b), reads as (a unquote b)
+            if count > 0 && rest.car().unwrap().is_unquote() {
+                break;
+            }
             let car = rest.car().unwrap();
             self.compile_quasiquote(lambda, car, depth)?;
             lambda.emit(OpCode::PushAcc);
             rest = rest.cdr().unwrap();
             count += 1;
         }
-        lambda.emit(OpCode::PushImmediate);
-        lambda.emit(self.heap.maybe_put_cell(rest));
+        if rest.is_pair() {
+            self.compile_quasiquote(lambda, rest, depth)?;
+            lambda.emit(OpCode::PushAcc);
+        } else {
+            lambda.emit(OpCode::PushImmediate);
+            lambda.emit(self.heap.maybe_put_cell(rest));
+        }
 
         for i in 0..count {
             lambda.emit(OpCode::Cons);
